@@ -1,5 +1,5 @@
 from abc import abstractmethod
-from inspect import getmembers
+from inspect import getmembers, isawaitable
 from typing import (
     AnyStr,
     AsyncIterable,
@@ -106,7 +106,10 @@ class CommandAdapter(Interpreter[AnyStr]):
                 argtype(arg)
                 for arg, argtype in zip(args, get_type_hints(method).values())
             )
-            resp = await method(*args)
+            resp = method(*args)
+            # a command may be a coroutine function or an async generator function
+            if isawaitable(resp):
+                resp = await resp
             if not isinstance(resp, AsyncIterator):
                 resp = wrap_as_async_iterator(resp)
             return resp, command.interrupt
